@@ -93,6 +93,8 @@ pub struct Ctx {
     pub exhaustive: Vec<String>,
     /// optional call log (C17: call record is flushed *before* the library is invoked)
     pub call_log: Option<std::fs::File>,
+    /// C17: one defect = one signature, keyed on the panic location only
+    pub panic_sig_by_location: bool,
 }
 
 thread_local! {
@@ -185,6 +187,7 @@ impl Ctx {
             harness_errors: Vec::new(),
             exhaustive: Vec::new(),
             call_log: None,
+            panic_sig_by_location: false,
         }
     }
 
@@ -300,7 +303,8 @@ impl Ctx {
         if let Some(log) = self.call_log.as_mut() {
             // call record first, flushed, so that an abort which escapes catch_unwind
             // still leaves the offending input on disk
-            let rec = json!({"ev":"call","entry":entry,"group":self.cur_group,"input":input()});
+            let inp = input();
+            let rec = json!({"ev":"call","entry":entry,"group":self.cur_group,"input":inp});
             let _ = writeln!(log, "{rec}");
             let _ = log.flush();
             let r = catch_unwind(AssertUnwindSafe(f));
@@ -314,10 +318,10 @@ impl Ctx {
                         .with(|p| p.borrow_mut().take())
                         .unwrap_or_default();
                     let _ = writeln!(log, "{{\"ev\":\"panic\"}}");
-                    let sig = format!("panic/{}@{}", entry, norm_loc(&loc));
+                    let sig = self.panic_sig(entry, &loc);
                     self.violation(
                         &sig,
-                        json!({"entry":entry,"panic_location":loc,"panic_message":msg,"build":self.build}),
+                        json!({"entry":entry,"input":inp,"panic_location":loc,"panic_message":msg,"build":self.build}),
                     );
                     None
                 }
@@ -330,7 +334,7 @@ impl Ctx {
                 let (loc, msg) = LAST_PANIC
                     .with(|p| p.borrow_mut().take())
                     .unwrap_or_default();
-                let sig = format!("panic/{}@{}", entry, norm_loc(&loc));
+                let sig = self.panic_sig(entry, &loc);
                 let inp = input();
                 self.violation(
                     &sig,
@@ -338,6 +342,14 @@ impl Ctx {
                 );
                 None
             }
+        }
+    }
+
+    fn panic_sig(&self, entry: &str, loc: &str) -> String {
+        if self.panic_sig_by_location {
+            format!("panic@{}", norm_loc(loc))
+        } else {
+            format!("panic/{}@{}", entry, norm_loc(loc))
         }
     }
 
